@@ -817,9 +817,13 @@ class Program:
     def callees_of_site(self, c):
         """set of body def paths this call site may enter (within analysed crates)"""
         out = set()
-        if c.resolved and c.resolved in self.bodies and c.ikind != "Virtual":
-            out.add(c.resolved)
-            return out
+        if c.resolved and c.ikind != "Virtual":
+            if c.resolved in self.bodies:
+                out.add(c.resolved)
+                return out
+            if c.resolved != c.callee:
+                # resolved to a concrete instance outside the analysed crates (std / dependency)
+                return out
         if c.callee in self.bodies and not c.trait:
             out.add(c.callee)
             return out
